@@ -136,6 +136,10 @@ def _corruptions(lines, files, first_line):
                                 ("dup-label", None, True)):
             if name == "dup-label":
                 yield ("dup-label@%d" % i, True, lines[:i] + ["duplabel:", "duplabel:"] + lines[i:], files)
+                yield ("dup-define@%d" % i, True, lines[:i] + [".define DUPDEF 1", ".define DUPDEF 2"] + lines[i:], files)
+                yield ("dup-macro@%d" % i, True, lines[:i] + [".macro DUPMAC", ".db 1", ".endm", ".macro DUPMAC", ".db 2", ".endm"] + lines[i:], files)
+                yield ("dup-equ@%d" % i, True, lines[:i] + ["DUPEQU equ 1", "DUPEQU equ 2"] + lines[i:], files)
+                yield ("define-is-label@%d" % i, True, lines[:i] + ["duplabel2:", ".define duplabel2 2"] + lines[i:], files)
             else:
                 yield ("%s@%d" % (name, i), must, lines[:i] + [ins] + lines[i:], files)
         for name, text in (("long-identifier", "x" * 600 + ":"), ("long-number", ".db " + "1" * 600), ("long-string", '.db "' + "s" * 600 + '"'),
